@@ -67,10 +67,19 @@ Theorem C16_rest : forall (s : list N) (k : nat) (ops : list sc_op),
 Proof. exact rest_after_k. Qed.
 Print Assumptions C16_rest.
 
-(* ... and that remainder is a suffix of the input: consumed bytes ++ Rest = input. *)
-Theorem C16_rest_suffix : forall (s : list N) (k : nat), exists consumed, s = consumed ++ ref_rest k s.
-Proof. exact ref_rest_suffix. Qed.
-Print Assumptions C16_rest_suffix.
+(* ... and that remainder is a suffix of the input: consumed ++ Rest = input, where the consumed
+   prefix ALONE already yields the same k observations (tokens, Complete flags, end of input):
+   nothing the k calls reported depends on the bytes Rest hands back, and nothing is lost. *)
+Theorem C16_rest_consumed : forall (s : list N) (k : nat), exists consumed,
+  s = consumed ++ ref_rest k s /\
+  run_ops (new_scanner consumed) (repeat ONext k) = run_ops (new_scanner s) (repeat ONext k).
+Proof. exact rest_consumed. Qed.
+Print Assumptions C16_rest_consumed.
+
+Example C16_rest_consumed_ex :   (* a<backslash><space>b<space> is what the first Next consumed *)
+  [97; 92; 32; 98; 32; 32; 99; 32; 100] = [97; 92; 32; 98; 32] ++ ref_rest 1 [97; 92; 32; 98; 32; 32; 99; 32; 100]
+  /\ run_ops (new_scanner [97; 92; 32; 98; 32]) [ONext] = [RNext true [97; 32; 98] true].
+Proof. vm_compute. auto. Qed.
 
 (* The same in terms of the model's scanner: k calls of Next never panic; the scanner they leave
    holds an unread input [inp sc] such that (bytes consumed so far) ++ inp sc = input, that unread
